@@ -31,7 +31,7 @@ func init() {
 		Technique: "property-based testing (rapid) of concurrent workloads: differential against the same calls run alone, on a worker built with the Go race detector; schedules perturbed from user level (yielding visitor, callbacks, loader)",
 		Rule: "workloads of N in {2, 8, 64} goroutines x a mix of Execute, ExecuteSafe and Parse calls on ONE environment (core or Twig) over generated templates - in the Twig environment mixing content types (.html, .js, .css, .txt, no extension), templates with and without blocks, includes, inheritance, macros - each call with its own context (in one workload in four: a nil context map for about half of the calls, on templates that assign at top level) and writer; GOMAXPROCS in {1, 4, 16}; an extra NodeVisitor, the recording callbacks and the loader yield the processor at points chosen by rapid. " +
 			"One workload in five is run as the serial schedule (the calls one after the other on the shared environment). Oracles: (1) every call's (output, error) equals that of the same call run alone on a fresh environment; (2) the worker is built with -race and halts on the first report - any data race is a violation. " +
-			"Non-trivial: the workload has >= 2 concurrent calls on templates that differ in content type or block structure; counted per distinct workload.",
+			"Non-trivial: the workload has >= 2 concurrent calls on templates that differ in content type or block structure; counted per distinct workload. Feature templates include two that apply every deterministic filter of the Twig environment.",
 		Assumptions: []string{"this technique does not enumerate interleavings: a race on a path no generated workload executes stays invisible", "the race detector reports unordered conflicting accesses of the observed execution; it does not need the bad interleaving to manifest"},
 		MaxShards: 8,
 		UseRace:   true,
